@@ -215,3 +215,30 @@ CB_FACTS = [r'static const size_type underlying_size = sizeof\(underlying_type\)
 UNIT = Unit('stdex', PRELUDE + cvector_struct('cvecv', 'uint32_t') + cvector_struct('cvec16', 'size16_t') + cbitset_struct(),
             make_cvector('cvecv', 'uint32_t') + make_cvector('cvec16', 'size16_t') + make_cbitset())
 UNIT.facts = FACTS + CB_FACTS
+
+
+from vx import native as _N
+
+
+def _twin_cbitset(method):
+    def tw(o):
+        v = _N.trace_vals(o, 'h_cbitset_%s' % method)
+        i = _N.to_int(v.get('i'), 0); d0 = _N.to_int(v.get('x.data[0l]'), 0) & 0xffffffffffffffff; d1 = _N.to_int(v.get('x.data[1l]'), 0) & 0xffffffffffffffff
+        return _N.TWIN_HEAD + """
+int main() {
+    stdex::cbitset<128> b; uint64_t w[2] = { %dull, %dull }; size_t idx = %d %% 128;
+    for (size_t k = 0; k < 128; ++k) if ((w[k / 64] >> (k %% 64)) & 1) b.set(k);
+    b.%s(idx);
+    int bad = 0;
+    for (size_t k = 0; k < 128; ++k) {
+        bool want = (k == idx) ? %s : (((w[k / 64] >> (k %% 64)) & 1) != 0);
+        if (b.test(k) != want) { std::printf("bit %%zu is %%d after %s(%%zu), specified %%d\\n", k, (int)b.test(k), idx, (int)want); ++bad; }
+    }
+    return bad ? 1 : 0;
+}""" % (d0, d1, i, method, 'true' if method == 'set' else 'false', method)
+    return tw
+
+
+for _f in UNIT.fns:
+    if _f.name in ('cbitset_set', 'cbitset_reset'):
+        _f.twin = _twin_cbitset(_f.name.split('_')[1])
